@@ -200,7 +200,7 @@ def evaluate(ctx, world, record=True):
 def plan(tier, seed):
     if tier == "quick":
         return [{"task": "worlds", "examples": 400} for _ in range(16)]
-    return [{"task": "worlds", "examples": 20000} for _ in range(32)]
+    return [{"task": "worlds", "examples": 8000} for _ in range(32)]
 
 
 def run_task(ctx, task, **kw):
